@@ -999,9 +999,20 @@ func (p *H265Payloader) Payload(mtu uint16, payload []byte) [][]byte { //nolint:
 			naluHeader := newH265NALUHeader(nalu[0], nalu[1])
 
 			// the nalu header is omitted from the fragmentation packet payload
+			fullNALU := nalu
 			nalu = nalu[h265NaluHeaderSize:]
 
 			if maxFUPayloadSize <= 0 || len(nalu) == 0 {
+				return
+			}
+
+			if len(nalu) <= maxFUPayloadSize {
+				// a single FU would carry the S bit but never the E bit; a unit this
+				// small fits into a single NAL unit packet instead
+				flushBufferedNals()
+				bufferedNALUs = append(bufferedNALUs, fullNALU)
+				flushBufferedNals()
+
 				return
 			}
 
